@@ -298,10 +298,10 @@ Proof.
   inversion Hok as [|? ? Hp Hrest]; subst.
   destruct (find_match vs pat (ts_infos st)) as [m|site] eqn:Em; cbn [bind] in H; [|discriminate].
   destruct (Nat.eqb_spec (fm_total m) (fm_rule_idx m)) as [Hfull|Hne]; [|apply (IH st st' Hrest H)].
+  destruct (get_number vs (s "value") (fm_fields m)) as [value|]; [|apply (IH st st' Hrest H)].
   destruct (nth_opt (ts_infos st) (fm_start m)); [|discriminate].
   destruct (nth_opt (ts_infos st) (Nat.pred (fm_target m))); [|discriminate].
   destruct (Nat.eqb (fm_target m) 0); [discriminate|].
-  destruct (get_number vs (s "value") (fm_fields m)) as [value|]; [|discriminate].
   destruct (ui_type_field line (ts_ui st) (fm_fields m)) as [ui'|site]; cbn [bind] in H; [|discriminate].
   destruct (replace_match (ts_infos st) m (TDynamicType value (uref d))) as [infos'|site] eqn:Er;
     cbn [bind] in H; [|discriminate].
@@ -717,6 +717,9 @@ Definition op_pats_ok (ck : clock) (m : mstate) (o : op) : Prop :=
     forall ps0, tokenise_patterns LX ck (m_cfg m) lang patterns = Ok ps0 -> no_single ps0
   | OAddTypeItem _ _ _ parse _ _ _ _ _ _ =>
     forall ps0, tokenise_patterns LX ck (m_cfg m) (s "en") parse = Ok ps0 -> no_single ps0
+  | OSetDateRule lang patterns =>
+    (* set_date_rule stores the patterns unfiltered *)
+    forall ps0, tokenise_patterns LX ck (m_cfg m) lang patterns = Ok ps0 -> Forall pat_ok ps0
   | _ => True
   end.
 
@@ -736,7 +739,8 @@ Proof.
   intros Hop [Hr Hu].
   assert (Hsame : cfg_rules_ok (m_cfg m) /\ cfg_units_ok (m_cfg m)) by (split; assumption).
   destruct o as [lang text|lang text|sid|sid text|sid lang|sid|v|v|v| |d rm rnd|d rm rnd|rm rnd|cur rate
-                 |lang patterns name kind k cur|lang name|name|name index format parse up down names digits rnd rm];
+                 |lang patterns name kind k cur|lang name|name|name index format parse up down names digits rnd rm
+                 |lang patterns];
     cbn [step]; cbn [op_pats_ok] in Hop; try exact Hsame.
   - (* OSetText *) destruct (sess_get sid (m_sessions m)); exact Hsame.
   - (* OSetLanguage *) destruct (sess_get sid (m_sessions m)); exact Hsame.
@@ -778,6 +782,18 @@ Proof.
     + unfold unit_ok. cbn [dt_parse]. apply stored_pats_ok. exact (Hop ps0 eq_refl).
     + destruct (assoc_in _ _ _ Eg) as [k' Hin]. unfold types_ok in Hty. rewrite Forall_forall in Hty.
       exact (Hty _ Hin).
+  - (* OSetDateRule *)
+    unfold set_date_rule.
+    destruct (tokenise_patterns LX ck (m_cfg m) lang patterns) as [ps0|site] eqn:Et; cbn [bind]; [|exact Hsame].
+    cbn [fst with_cfg m_cfg]. split; [|exact Hu].
+    unfold cfg_rules_ok. cbn [set_rules cf_rules].
+    apply (assoc_update_Forall (fun rs => Forall rule_ok rs)); [|exact Hr].
+    intros rs Hrs. apply Forall_app. split.
+    + apply Forall_forall. intros r Hin. apply filter_In in Hin as [Hin _].
+      rewrite Forall_forall in Hrs. exact (Hrs r Hin).
+    + constructor; [|constructor]. unfold rule_ok. cbn [rule_patterns].
+      pose proof (Hop ps0 eq_refl) as Hall. apply Forall_forall. intros p Hin. apply filter_In in Hin as [Hin _].
+      rewrite Forall_forall in Hall. exact (Hall p Hin).
 Qed.
 
 (* every configuration reached from the default one by a history that registers no one-token
